@@ -469,6 +469,11 @@ def run(case):
                 if proc.has_terminated() and canon.canon(proc._trace) != canon.canon(model['trace']):
                     result.violate('continue_wrong_checkpoint', 'persisted_trace',
                                    f'persisted trace of the continued process {proc._trace!r} != {model["trace"]!r}')
+        unsafe = [v for loop in getattr(harness, '_old_loops', []) + [harness.loop] for v in loop.thread_violations]
+        if unsafe:
+            result.violate('thread_unsafe_scheduling', unsafe[0].split('(')[0],
+                           f'a task subscriber (run in the communicator\'s thread in production) scheduled work on the loop '
+                           f'through a non-thread-safe call: {unsafe[:3]}')
         result.events = list(world.events)
         result.nontrivial = nontrivial
         if world.fault_fired is not None:
